@@ -171,6 +171,44 @@ def scenario(ck, d, idx):
     return len(steps)
 
 
+def scenario_same_text(ck, d, idx):
+    """EQUAL command text in the consumer's and the producer's project (DESIGN.md §7 D5/D6; needs slice INC's FX3: recorded
+       command outputs keyed by (command, directory)). Enabled with VERIF_C13_SAME_TEXT=1."""
+    T, P, C = R.Tgt, R.Proj, R.Cfg
+    tr = Tree(ck, d, 1000 + idx)
+    dirs = ck.rng.choice([('root', 'root/q'), ('ws/root', 'ws/lib')])
+    x = T('B', [], 'echo "q::x" >> "%s"' % tr.trace, [('F', ['in.txt'], None)], [('C', 'cat ver.txt')])
+    c = T('B', [], 'echo "c" >> "%s"' % tr.trace, [('C', 'cat ver.txt'), ('O', 'q::x.output')])
+    cfg = C([P(None, dirs[0], [('q', 1, 'rel')], [('c', c)]), P('q', dirs[1], [], [('x', x)])])
+    cfg.base = R.TOKEN
+    R.render(cfg, tr.dir, 'json')
+    tr.write(os.path.join(dirs[1], 'in.txt'), 'v1\n')
+    tr.write(os.path.join(dirs[1], 'ver.txt'), 'q-1\n')
+    tr.write(os.path.join(dirs[0], 'ver.txt'), 'root-1\n')
+    bad = []
+
+    def step(desc, want):
+        rc, new, err = tr.run(dirs[0], ['c'])
+        if rc != 0 or sorted(new) != sorted(want):
+            bad.append({'step': desc, 'ran': new, 'expected': want, 'exit': rc})
+    step('first build', ['q::x', 'c'])
+    step('untouched tree: skipped although the two directories give different outputs for the same command text', [])
+    tr.write(os.path.join(dirs[0], 'ver.txt'), 'q-1\n')
+    step('the consumer\'s own command output changes to the value of the producer\'s: consumer re-runs', ['c'])
+    tr.write(os.path.join(dirs[1], 'ver.txt'), 'q-2\n')
+    step('the producer\'s command output changes: producer and consumer re-run', ['q::x', 'c'])
+    step('untouched again', [])
+    ck.count(('blackbox-same-text', idx, dirs))
+    ck.tally('blackbox:scenario:same-command-text')
+    if bad:
+        ck.violation({'kind': 'blackbox-producer-consumer', 'config': R.describe(cfg, 'REQ', ['c']), 'cfg': R.dump_cfg(cfg),
+                      'history': tr.log, 'failing_steps': bad, 'property_text': PROP_TEXT,
+                      'what': 'equal command texts in two project directories are confused (recorded output keyed by the text only)',
+                      'replay': 'render the projects, apply the history in order, compare the lines appended to trace.log'},
+                     found_input=True)
+    return 5
+
+
 def run(ck):
     quick = ck.tier == 'quick'
     ck.rule('resolve/resources: producer/consumer layouts (1-3 projects, 75% of the inputs of builds/services are `X.output` references '
@@ -189,11 +227,17 @@ def run(ck):
             nsteps += scenario(ck, d, i)
         except TimeoutError:
             ck.tally('blackbox:inconclusive-timeout')     # an engine hang is C04's subject; these layouts share no dependency
-    vf.sh(['rm', '-rf', d])
+    if os.environ.get('VERIF_C13_SAME_TEXT') == '1':
+        for i in range(2 if quick else 6):
+            try:
+                nsteps += scenario_same_text(ck, d, i)
+            except TimeoutError:
+                ck.tally('blackbox:inconclusive-timeout')
     ck.rule('black box: real binary on generated two-project trees (producer in the imported project at a child / sibling / deep '
             'directory, optional second producer with the same relative path in the consumer\'s project, optional chain c2 <- c, '
             'optional command resource); history: build, re-run untouched, edit producer output, edit same-named files of the '
             'consumer\'s project, edit the producer\'s command source, enter from the producer\'s directory; mtimes set by the harness')
+    vf.sh(['rm', '-rf', d])
     ck.extra['blackbox_scenarios'] = nsc
     ck.extra['blackbox_invocations'] = nsteps
     ck.assumptions.append('command resources with EQUAL text in different directories are exercised structurally only (model/impl '
